@@ -218,6 +218,12 @@ def _run(case):
                 raise Mismatch("or/raises", f"step {n}: {r[1]}")
             _check_state(r[1], m2, f"{n}(|)")
             _check_state(real, model, f"{n}(| left operand changed)")
+            # the result is a new mapping (also when the right operand is empty): editing it leaves both operands alone
+            if r[1] is real:
+                raise Mismatch("or/result-is-the-left-operand", f"step {n}: d | {other!r} is d")
+            r[1]["ZZ-OR-PROBE"] = 1
+            if "ZZ-OR-PROBE" in real or "ZZ-OR-PROBE" in other:
+                raise Mismatch("or/result-not-independent", f"step {n}")
         elif name == "ior":
             (data,) = args
             other = {dk(k): v for k, v in data}
@@ -293,6 +299,11 @@ def _run(case):
                 raise Mismatch("or/reflected-type", f"step {n}: {type(r[1]).__name__}")
             _check_state(r[1], m2, f"{n}(dict | d)")
             _check_state(real, model, f"{n}(dict | d changed the right operand)")
+            if r[1] is real:
+                raise Mismatch("or/reflected-result-is-the-operand", f"step {n}")
+            r[1]["ZZ-OR-PROBE"] = 1
+            if "ZZ-OR-PROBE" in real:
+                raise Mismatch("or/reflected-result-not-independent", f"step {n}")
         elif name == "sorted_keys":
             # parents first: an ordering cached per class must not leak into subclasses
             for base in type(real).__mro__[1:]:
@@ -378,7 +389,7 @@ op = st.one_of(
     st.tuples(st.just("setdefault"), key, st.one_of(st.none(), val)),
     st.tuples(st.just("update_map"), upairs), st.tuples(st.just("update_pairs"), pairs), st.tuples(st.just("update_kw"), kwpairs),
     st.tuples(st.just("update_map_kw"), upairs, kwpairs),
-    st.tuples(st.just("copy")), st.tuples(st.just("or"), upairs), st.tuples(st.just("ior"), upairs), st.tuples(st.just("ror"), upairs),
+    st.tuples(st.just("copy")), st.tuples(st.just("or"), upairs), st.tuples(st.just("or"), st.just([])), st.tuples(st.just("ior"), upairs), st.tuples(st.just("ror"), upairs), st.tuples(st.just("ror"), st.just([])),
     st.tuples(st.just("set_canonical_order"), st.lists(st.sampled_from(["A", "B", "SUMMARY", "UID", "X-A"]), max_size=3, unique=True)),
     st.tuples(st.just("sorted_keys")),
     st.tuples(st.just("eq"), st.sampled_from(["upper", "lower", "title"])), st.tuples(st.just("sorted_keys")),
